@@ -170,15 +170,78 @@ SCALARS = {
 }
 
 
+def _mats():
+    R = b.rotx(0.3) @ b.roty(-0.5) @ b.rotz(1.1)
+    T = b.rt2tr(R, [1.0, -2.0, 0.5])
+    R1 = b.rotx(-0.2) @ b.rotz(0.7)
+    T1 = b.rt2tr(R1, [0.5, 0.25, -1.0])
+    P = b.rot2(0.4)
+    H = b.rt2tr(P, [1.0, 2.0])
+    return dict(R=R, T=T, R1=R1, T1=T1, P=P, H=H, pts3=np.array([[1., 2, 3, 4], [0, 1, 0, -1], [2, 2, 2, 2]]),
+                pts2=np.array([[1., 2, 3], [0, 1, -1]]), so3=b.skew([0.1, 0.2, 0.3]),
+                se3=b.skewa([1, 2, 3, 0.1, 0.2, 0.3]), se2=b.skewa([1, 2, 0.3]), t=np.array([1.0, 2.0, 3.0]))
+
+
+# name -> f(m) where m is the dict of fresh matrices above; returns (result, list of arguments passed)
+MAT = {
+    "t2r": lambda m: (b.t2r(m["T"]), [m["T"]]), "r2t": lambda m: (b.r2t(m["R"]), [m["R"]]),
+    "tr2rt": lambda m: (b.tr2rt(m["T"]), [m["T"]]), "rt2tr": lambda m: (b.rt2tr(m["R"], m["t"]), [m["R"], m["t"]]),
+    "trinv": lambda m: (b.trinv(m["T"]), [m["T"]]), "trinv2": lambda m: (b.trinv2(m["H"]), [m["H"]]),
+    "trlog(R)": lambda m: (b.trlog(m["R"]), [m["R"]]), "trlog(T)": lambda m: (b.trlog(m["T"], twist=True), [m["T"]]),
+    "trlog2(R)": lambda m: (b.trlog2(m["P"]), [m["P"]]), "trlog2(T)": lambda m: (b.trlog2(m["H"]), [m["H"]]),
+    "trexp(so3)": lambda m: (b.trexp(m["so3"]), [m["so3"]]), "trexp(se3)": lambda m: (b.trexp(m["se3"]), [m["se3"]]),
+    "trexp2(se2)": lambda m: (b.trexp2(m["se2"]), [m["se2"]]),
+    "trnorm(R)": lambda m: (b.trnorm(m["R"]), [m["R"]]), "trnorm(T)": lambda m: (b.trnorm(m["T"]), [m["T"]]),
+    "trnorm2": lambda m: (b.trnorm2(m["H"]), [m["H"]]),
+    "tr2rpy": lambda m: (b.tr2rpy(m["T"]), [m["T"]]), "tr2eul": lambda m: (b.tr2eul(m["R"]), [m["R"]]),
+    "tr2angvec": lambda m: (b.tr2angvec(m["T"]), [m["T"]]), "tr2xyt": lambda m: (b.tr2xyt(m["H"]), [m["H"]]),
+    "tr2delta(T)": lambda m: (b.tr2delta(m["T"]), [m["T"]]),
+    "tr2delta(T0,T1)": lambda m: (b.tr2delta(m["T"], m["T1"]), [m["T"], m["T1"]]),
+    "tr2jac": lambda m: (b.tr2jac(m["T"]), [m["T"]]),
+    "trinterp": lambda m: (b.trinterp(m["T"], m["T1"], 0.3), [m["T"], m["T1"]]),
+    "trinterp2": lambda m: (b.trinterp2(None, m["H"], 0.3), [m["H"]]),
+    "vex": lambda m: (b.vex(m["so3"]), [m["so3"]]), "vexa": lambda m: (b.vexa(m["se3"]), [m["se3"]]),
+    "h2e": lambda m: (b.h2e(np.vstack([m["pts3"], np.ones(4)])), []), "e2h": lambda m: (b.e2h(m["pts3"]), [m["pts3"]]),
+    "homtrans": lambda m: (b.homtrans(m["T"], m["pts3"]), [m["T"], m["pts3"]]),
+    "isR": lambda m: (b.isR(m["R"]), [m["R"]]), "isrot": lambda m: (b.isrot(m["R"], check=True), [m["R"]]),
+    "ishom": lambda m: (b.ishom(m["T"], check=True), [m["T"]]), "isrot2": lambda m: (b.isrot2(m["P"], check=True), [m["P"]]),
+    "ishom2": lambda m: (b.ishom2(m["H"], check=True), [m["H"]]), "isskew": lambda m: (b.isskew(m["so3"]), [m["so3"]]),
+    "isskewa": lambda m: (b.isskewa(m["se3"]), [m["se3"]]), "iseye": lambda m: (b.iseye(m["R"]), [m["R"]]),
+    "r2q": lambda m: (b.r2q(m["R"]), [m["R"]]), "transl(T)": lambda m: (b.transl(m["T"]), [m["T"]]),
+    "transl2(T)": lambda m: (b.transl2(m["H"]), [m["H"]]), "Ab2M": lambda m: (b.Ab2M(m["R"], m["t"]), [m["R"], m["t"]]),
+    "adjoint": lambda m: (__import__("spatialmath.base.transformsNd", fromlist=["x"]).adjoint(m["T"])
+                          if hasattr(__import__("spatialmath.base.transformsNd", fromlist=["x"]), "adjoint") else None, [m["T"]]),
+    "det": lambda m: (np.linalg.det(m["R"]), [m["R"]]),
+    "trprint": lambda m: (b.trprint(m["T"], file=None), [m["T"]]), "trprint2": lambda m: (b.trprint2(m["H"], file=None), [m["H"]]),
+    "SO3(R)": lambda m: (SO3(m["R"]), [m["R"]]), "SE3(T)": lambda m: (SE3(m["T"]), [m["T"]]),
+    "SO2(R)": lambda m: (SO2(m["P"]), [m["P"]]), "SE2(T)": lambda m: (SE2(m["H"]), [m["H"]]),
+    "UnitQuaternion(R)": lambda m: (UnitQuaternion(m["R"]), [m["R"]]),
+    "Twist3(se3)": lambda m: (Twist3(m["se3"]), [m["se3"]]), "Twist2(se2)": lambda m: (Twist2(m["se2"]), [m["se2"]]),
+    "SE3([T,T])": lambda m: ((lambda lst: (SE3(lst), lst))([m["T"], m["T1"]])),
+    "SO3([R,R])": lambda m: ((lambda lst: (SO3(lst), lst))([m["R"], m["R1"]])),
+    "SE3*points": lambda m: (SE3(m["T"]) * m["pts3"], [m["pts3"]]), "SO3*points": lambda m: (SO3(m["R"]) * m["pts3"], [m["pts3"]]),
+    "SE2*points": lambda m: (SE2(m["H"]) * m["pts2"], [m["pts2"]]),
+    "UnitQuaternion*points": lambda m: (UnitQuaternion(m["R"]) * m["pts3"], [m["pts3"]]),
+}
+
+
 def flat(r):
     """a comparable array view of any result (objects -> their stored arrays)"""
     if r is None:
         return None
     if hasattr(r, "data") and isinstance(r.data, list):
         return [np.asarray(a) for a in r.data]
-    if isinstance(r, tuple):
-        return [np.asarray(x) for x in r]
-    return [np.asarray(r)]
+    def arr(x):
+        try:
+            return np.asarray(x)
+        except ValueError:
+            return np.asarray(repr(x))
+    if isinstance(r, (tuple, list)) and not all(np.isscalar(x) for x in r):
+        out = []
+        for x in r:
+            out += flat(x) or [np.asarray("None")]
+        return out
+    return [arr(r)]
 
 
 def identical(r1, r2):
